@@ -237,11 +237,29 @@ def run(ctx):
             else:
                 ctx.bad('COVER-C02d', adj, '%s.%s is a file offset stored in the TOC but adjust_offsets_after_wal_growth does not move it: after a WAL growth the rewritten TOC '
                         'points %s bytes before the data, and an open before the next commit reads the wrong bytes' % (owner, fld, 'delta'), sink='%s.%s' % (owner, fld), detail='offset-not-shifted:%s.%s' % (owner, fld))
+        mem = F.adt('Memvid')
+        mem_pos = sorted(f['name'] for v in (mem['variants'] if mem else []) for f in v['fields'] if f['ty'] == 'u64' and (f['name'].endswith('_end') or f['name'].endswith('offset')))
+        ctx.floor('COVER-C02d:handle', len(mem_pos), 2, 'file-position fields of the handle (data_end, cached_payload_end)')
         for key in ('Memvid::grow_wal_region', 'Memvid::ensure_wal_capacity'):
             g = ctx.need('COVER-C02d', key)
             if g is None:
                 continue
             ctx.touch(g, len(g.blocks))
+            # the handle's own cached positions into the data region move with the data
+            for fld in mem_pos:
+                moved = False
+                for st in lib.field_stores(g, 'Memvid', fld):
+                    if st['lhs'].field_owners()[-1] != ('Memvid', fld):
+                        continue
+                    sl = lib.slice_back(g, lib.rv_operands(st['rv']), through_calls=True, at=(st['bb'], st['idx']))
+                    if sl.has_field('Memvid', fld) and ({'Add', 'AddWithOverflow'} & sl.ops or any(c.name in ('saturating_add', 'checked_add', 'wrapping_add') for c in sl.calls)):
+                        moved = True
+                ctx.evaluations += 1
+                if moved:
+                    ctx.ok('COVER-C02d', g, 'Memvid.%s is moved by delta' % fld)
+                else:
+                    ctx.bad('COVER-C02d', g, 'Memvid.%s is a position in the data region cached on the handle, but this growth path does not move it: the next commit that inserts nothing '
+                            'rebuilds the indexes (and places later payloads) at the stale position, inside the enlarged WAL region' % fld, sink='Memvid.' + fld, detail='handle-position-not-shifted:' + fld)
             sh = g.calls_to('Memvid::shift_data_for_wal_growth')
             ad = g.calls_to('Memvid::adjust_offsets_after_wal_growth')
             rw = g.calls_to('Memvid::rewrite_toc_footer')
